@@ -153,96 +153,112 @@ inline vf::CaseResult run_c16(const vf::RunnerArgs& /*args*/, const std::vector<
                     failx("cycle_not_empty", "a key of an earlier cycle is visible in the new storage");
                 }
             }
-            std::uint64_t reclaim_seen = 0;
-            std::uint64_t retired = 0;
-            std::string werr;
-            Epoch e_mid = 0;
-            Epoch e_end = 0;
-            bool epoch_exited = false;
-            bool gc_exited = false;
-            std::uint64_t epoch_iters = 0;
-            std::uint64_t gc_iters = 0;
             Token open_tok{};
-            std::vector<std::function<void()>> bodies;
-            bodies.emplace_back([&] {
-                Token tok{};
-                if (enter(tok) != status::OK) {
-                    werr = "enter failed";
-                    return;
+            std::uint64_t retired = 0;
+            // one phase of work: puts / removes in a scheduled thread, then virtual time; judged: background threads alive, epoch
+            // advancing and retired memory reclaimed while running.  Run once per cycle, and once more after destroy().
+            auto run_phase = [&](const std::vector<std::string>& names, bool leave_open, const std::string& label) {
+                std::uint64_t reclaim_seen = 0;
+                retired = 0;
+                std::string werr;
+                Epoch e_mid = 0;
+                Epoch e_end = 0;
+                bool epoch_exited = false;
+                bool gc_exited = false;
+                std::uint64_t epoch_iters = 0;
+                std::uint64_t gc_iters = 0;
+                std::vector<std::function<void()>> bodies;
+                bodies.emplace_back([&] {
+                    Token tok{};
+                    if (enter(tok) != status::OK) {
+                        werr = "enter failed";
+                        return;
+                    }
+                    for (unsigned i = 0; i < nkeys; ++i) {
+                        std::string k = "k" + std::to_string(i);
+                        std::string v = vbytes(next_id++);
+                        if (put<char>(tok, names[i % names.size()], k, v.data(), v.size()) != status::OK) { werr = "put failed"; }
+                    }
+                    for (unsigned i = 0; i < nremove; ++i) {
+                        std::string k = "k" + std::to_string(i);
+                        if (remove(tok, names[i % names.size()], k) != status::OK) { werr = "remove failed"; }
+                    }
+                    leave(tok);
+                    if (leave_open) {
+                        // the session that stays open may sit in any slot: open a few, close all but one
+                        std::vector<Token> tmp(1 + open_slot);
+                        for (auto& t0 : tmp) { enter(t0); }
+                        open_tok = tmp.back();
+                        for (std::size_t i = 0; i + 1 < tmp.size(); ++i) { leave(tmp[i]); }
+                    }
+                    // let virtual time pass: grant the background threads full iterations
+                    const std::uint64_t e0 = S.bg_iterations(yv::TH_EPOCH);
+                    const std::uint64_t g0 = S.bg_iterations(yv::TH_GC);
+                    e_mid = epoch_management::get_epoch();
+                    for (int i = 0; i < 4000; ++i) {
+                        if (S.bg_iterations(yv::TH_EPOCH) >= e0 + 8 && S.bg_iterations(yv::TH_GC) >= g0 + 8) { break; }
+                        if (S.background_finished(yv::TH_EPOCH) || S.background_finished(yv::TH_GC)) { break; }
+                        S.grant_background();
+                    }
+                    epoch_iters = S.bg_iterations(yv::TH_EPOCH) - e0;
+                    gc_iters = S.bg_iterations(yv::TH_GC) - g0;
+                    e_end = epoch_management::get_epoch();
+                    epoch_exited = S.background_finished(yv::TH_EPOCH);
+                    gc_exited = S.background_finished(yv::TH_GC);
+                });
+                S.step_limit = 3000000;
+                S.clock = 0;
+                // C16 is not about tree races: preempt only at session / epoch / gc accesses and sleeps
+                S.preempt_cats = (1U << 1U) | (1U << 2U) | (1U << 3U) | (1U << 7U);
+                sched::RevBytes rb(bytes.data(), bytes.size());
+                sched::Outcome oc = S.run(std::move(bodies), rb);
+                S.preempt_cats = 0xffffffffU;
+                if (oc == sched::Outcome::Released) { return false; }
+                for (auto& ev : events) {
+                    if (ev.ev == yv::EV_RETIRE_VALUE || ev.ev == yv::EV_RETIRE_NODE) { ++retired; }
+                    if (ev.ev == yv::EV_RECLAIM_VALUE || ev.ev == yv::EV_RECLAIM_NODE) { ++reclaim_seen; }
                 }
-                for (unsigned i = 0; i < nkeys; ++i) {
-                    std::string k = "k" + std::to_string(i);
-                    std::string v = vbytes(next_id++);
-                    if (put<char>(tok, names[i % names.size()], k, v.data(), v.size()) != status::OK) { werr = "put failed"; }
+                tx << " " << label << "[epoch " << e_start << "->" << e_mid << "->" << e_end << " epoch_iters=" << epoch_iters << " gc_iters=" << gc_iters << " retired=" << retired
+                   << " reclaimed_while_running=" << reclaim_seen << "]\n";
+                events.clear();
+                if (!werr.empty()) { failx("cycle_op_failed", werr); }
+                ++st.checks;
+                if (epoch_exited) { failx("epoch_thread_exited", "the epoch thread left its loop while the system is running (before fin())"); }
+                if (gc_exited) { failx("gc_thread_exited", "the gc thread left its loop while the system is running (before fin())"); }
+                if (epoch_iters >= 8 && !leave_open) {
+                    ++st.checks;
+                    if (e_end < e_mid + 2) { failx("epoch_not_advancing", "the epoch advanced by " + std::to_string(e_end - e_mid) + " during " + std::to_string(epoch_iters) + " iterations of the epoch thread with no session open"); }
                 }
-                for (unsigned i = 0; i < nremove; ++i) {
-                    std::string k = "k" + std::to_string(i);
-                    if (remove(tok, names[i % names.size()], k) != status::OK) { werr = "remove failed"; }
+                if (epoch_iters >= 8 && gc_iters >= 8 && retired > 0 && !leave_open) {
+                    ++st.checks;
+                    if (reclaim_seen == 0) { failx("no_reclaim_while_running", std::to_string(retired) + " objects were retired, their session left and both background threads ran >= 8 iterations, but nothing was reclaimed before fin()"); }
                 }
-                leave(tok);
-                if (leave_open) {
-                    // the session that stays open may sit in any slot: open a few, close all but one
-                    std::vector<Token> tmp(1 + open_slot);
-                    for (auto& t0 : tmp) { enter(t0); }
-                    open_tok = tmp.back();
-                    for (std::size_t i = 0; i + 1 < tmp.size(); ++i) { leave(tmp[i]); }
-                }
-                // let virtual time pass: grant the background threads full iterations
-                const std::uint64_t e0 = S.bg_iterations(yv::TH_EPOCH);
-                const std::uint64_t g0 = S.bg_iterations(yv::TH_GC);
-                e_mid = epoch_management::get_epoch();
-                for (int i = 0; i < 4000; ++i) {
-                    if (S.bg_iterations(yv::TH_EPOCH) >= e0 + 8 && S.bg_iterations(yv::TH_GC) >= g0 + 8) { break; }
-                    if (S.background_finished(yv::TH_EPOCH) || S.background_finished(yv::TH_GC)) { break; }
-                    S.grant_background();
-                }
-                epoch_iters = S.bg_iterations(yv::TH_EPOCH) - e0;
-                gc_iters = S.bg_iterations(yv::TH_GC) - g0;
-                e_end = epoch_management::get_epoch();
-                epoch_exited = S.background_finished(yv::TH_EPOCH);
-                gc_exited = S.background_finished(yv::TH_GC);
-            });
-            S.step_limit = 3000000;
-            S.clock = 0;
-            // C16 is not about tree races: preempt only at session / epoch / gc accesses and sleeps
-            S.preempt_cats = (1U << 1U) | (1U << 2U) | (1U << 3U) | (1U << 7U);
-            sched::RevBytes rb(bytes.data(), bytes.size());
-            sched::Outcome oc = S.run(std::move(bodies), rb);
-            S.preempt_cats = 0xffffffffU;
-            if (oc == sched::Outcome::Released) {
+                return true;
+            };
+            if (!run_phase(names, leave_open, "")) {
                 res.inconclusive = true;
                 g_events = nullptr;
                 vf::g_event_sink = nullptr;
                 end_cycle();
                 return res;
             }
-            for (auto& ev : events) {
-                if (ev.ev == yv::EV_RETIRE_VALUE || ev.ev == yv::EV_RETIRE_NODE) { ++retired; }
-                if (ev.ev == yv::EV_RECLAIM_VALUE || ev.ev == yv::EV_RECLAIM_NODE) { ++reclaim_seen; }
-            }
-            tx << " [epoch " << e_start << "->" << e_mid << "->" << e_end << " epoch_iters=" << epoch_iters << " gc_iters=" << gc_iters << " retired=" << retired
-               << " reclaimed_while_running=" << reclaim_seen << "]\n";
-            if (!werr.empty()) { failx("cycle_op_failed", werr); }
-            ++st.checks;
-            if (epoch_exited) { failx("epoch_thread_exited", "the epoch thread left its loop while the system is running (before fin())"); }
-            if (gc_exited) { failx("gc_thread_exited", "the gc thread left its loop while the system is running (before fin())"); }
-            if (epoch_iters >= 8 && !leave_open) {
-                ++st.checks;
-                if (e_end < e_mid + 2) { failx("epoch_not_advancing", "the epoch advanced by " + std::to_string(e_end - e_mid) + " during " + std::to_string(epoch_iters) + " iterations of the epoch thread with no session open"); }
-            }
-            if (epoch_iters >= 8 && gc_iters >= 8 && retired > 0 && !leave_open) {
-                ++st.checks;
-                if (reclaim_seen == 0) { failx("no_reclaim_while_running", std::to_string(retired) + " objects were retired, their session left and both background threads ran >= 8 iterations, but nothing was reclaimed before fin()"); }
-            }
             if (cy > 0 && retired > 0) { later_cycle_retired = true; }
-            // ---- destroy() leaves an empty but usable system
+            // ---- destroy() leaves an empty but usable system (also when called on an already empty one, twice in a row)
             if (do_destroy) {
                 if (leave_open) { leave(open_tok); }
                 leave_open = false;
                 destroy();
+                const bool twice = c.chance(1, 2);
+                if (twice) { destroy(); }
+                tx << (twice ? " destroy x2" : " destroy");
                 std::vector<std::pair<std::string, tree_instance*>> lst;
                 ++st.checks;
                 if (list_storages(lst) != status::WARN_NOT_EXIST) { failx("destroy_not_empty", "storages survive destroy()"); }
+                // every session was left before: destroy() must not keep one for itself
+                for (auto& ti : thread_info_table::get_thread_info_table()) {
+                    ++st.checks;
+                    if (ti.get_running()) { failx("destroy_slots_not_free", "a session slot is marked running after destroy() although every session was left"); }
+                }
                 if (create_storage("after") != status::OK) { failx("destroy_unusable", "create_storage fails after destroy()"); }
                 Token tok{};
                 enter(tok);
@@ -251,6 +267,14 @@ inline vf::CaseResult run_c16(const vf::RunnerArgs& /*args*/, const std::vector<
                 std::pair<char*, std::size_t> out{};
                 if (get<char>("after", "k", out) != status::OK) { failx("destroy_unusable", "get fails after destroy()"); }
                 leave(tok);
+                // ... and the system keeps working like before: epoch progress and reclamation while running
+                if (!run_phase({"after"}, false, "after destroy ")) {
+                    res.inconclusive = true;
+                    g_events = nullptr;
+                    vf::g_event_sink = nullptr;
+                    end_cycle();
+                    return res;
+                }
             }
             g_events = nullptr;
             vf::g_event_sink = nullptr;
